@@ -61,29 +61,29 @@ type WriteFault struct {
 }
 
 type Plan struct {
-	Prop       string      `json:"prop"`
-	Seed       uint64      `json:"seed"`
-	Run        uint64      `json:"run"`
-	Tier       string      `json:"tier"`
-	Net        netsim.Spec `json:"net"`
-	Ops        []Op        `json:"ops"`
-	Knobs      Knobs       `json:"knobs"`
-	Converters []string    `json:"converters"`
-	SchedSeed  uint64      `json:"sched_seed"`
-	Steps      []string    `json:"steps,omitempty"` // replay: labels to take (lenient)
-	MaxSteps   int         `json:"max_steps"`
-	ConvFail   bool        `json:"conv_fail,omitempty"`   // converter transient failures
-	ConvGarble bool        `json:"conv_garble,omitempty"` // converter breaks the protocol once per stream version (one malformed line, then a normal answer)
-	MergeFail  bool        `json:"merge_fail,omitempty"`  // disk error: creating the merged index file fails (every merge)
-	ImportFail int         `json:"import_fail,omitempty"` // disk error: the first n index file creations of imports fail
-	WriteFail  []WriteFault `json:"write_fail,omitempty"` // disk full during one step
-	Restarts   []int       `json:"restarts,omitempty"`    // clean restart after these step numbers
-	CrashEvery int         `json:"crash_every,omitempty"` // C12: snapshot at every n-th changed I/O point (1 = all)
-	CrashMax   int         `json:"crash_max,omitempty"`
-	Listener   bool        `json:"listener,omitempty"` // attach an event listener
-	Loopback   bool        `json:"loopback,omitempty"` // C20: a PCAP-over-IP endpoint served over a real loopback socket (not replayable)
-	NoOracle   bool        `json:"no_oracle,omitempty"`
-	Poip       bool        `json:"poip,omitempty"` // C20: packets fed to the PCAP-over-IP handler (not replayable)
+	Prop       string       `json:"prop"`
+	Seed       uint64       `json:"seed"`
+	Run        uint64       `json:"run"`
+	Tier       string       `json:"tier"`
+	Net        netsim.Spec  `json:"net"`
+	Ops        []Op         `json:"ops"`
+	Knobs      Knobs        `json:"knobs"`
+	Converters []string     `json:"converters"`
+	SchedSeed  uint64       `json:"sched_seed"`
+	Steps      []string     `json:"steps,omitempty"` // replay: labels to take (lenient)
+	MaxSteps   int          `json:"max_steps"`
+	ConvFail   bool         `json:"conv_fail,omitempty"`   // converter transient failures
+	ConvGarble bool         `json:"conv_garble,omitempty"` // converter breaks the protocol once per stream version (one malformed line, then a normal answer)
+	MergeFail  bool         `json:"merge_fail,omitempty"`  // disk error: creating the merged index file fails (every merge)
+	ImportFail int          `json:"import_fail,omitempty"` // disk error: the first n index file creations of imports fail
+	WriteFail  []WriteFault `json:"write_fail,omitempty"`  // disk full during one step
+	Restarts   []int        `json:"restarts,omitempty"`    // clean restart after these step numbers
+	CrashEvery int          `json:"crash_every,omitempty"` // C12: snapshot at every n-th changed I/O point (1 = all)
+	CrashMax   int          `json:"crash_max,omitempty"`
+	Listener   bool         `json:"listener,omitempty"` // attach an event listener
+	Loopback   bool         `json:"loopback,omitempty"` // C20: a PCAP-over-IP endpoint served over a real loopback socket (not replayable)
+	NoOracle   bool         `json:"no_oracle,omitempty"`
+	Poip       bool         `json:"poip,omitempty"` // C20: packets fed to the PCAP-over-IP handler (not replayable)
 	// weights for the scheduler (per mille): probability to prefer a
 	// background step over an API step when both are enabled
 	BgBias int `json:"bg_bias"`
